@@ -244,7 +244,7 @@ def run(rep, tier, seed):
         for d in (-3, -2, -1, 0, 1, 2, 3):
             inputs.append(f32(base + d))
             inputs.append(-f32(base + d))
-    n_rand = 3000 if tier == "quick" else 200000
+    n_rand = 3000 if tier == "quick" else 30000
     inputs += [f32(rng.getrandbits(32)) for _ in range(n_rand)]
     inputs += [f32((e << 23) | rng.getrandbits(23)) for e in range(1, 255, 2 if tier == "quick" else 1) for _ in range(3)]
     lines, fin = [], []
